@@ -422,33 +422,156 @@ def enc_raw(t, shuffle_info=None):
     return b"d" + b"".join(enc_raw(k) + enc_raw(v) for k, v in t[1]) + b"e"
 
 
+def _swap_adjacent(rng, m):
+    ents = list(m[1])
+    if len(ents) < 2:
+        return None
+    i = rng.randrange(len(ents) - 1)
+    ents[i], ents[i + 1] = ents[i + 1], ents[i]
+    return ("M", ents)
+
+
+UNORDERED_DICT = ("M", [(b"b", 1), (b"a", 2)])
+
+
 def bencoded_case(rng, t, stats):
+    """bencode with the key order under control. Every dictionary is first sorted; then ONE (or
+    two) dictionaries are disturbed: inside info (its own keys, a duplicate key, a file entry, a
+    nested extra dictionary) => the real decoder flags info unordered => rejected; outside info
+    (top-level keys, an extra top-level dictionary or list of dictionaries) => info stays
+    ordered => must still load."""
     if not is_map(t):
         return G7.ref_encode(G7.normalize(t))
-    info = mget(t, "info")
     top = G7.normalize(t)
+    info = mget(top, "info")
     if not is_map(info):
         return G7.ref_encode(top)
-    ni = G7.normalize(info)
-    ents = list(ni[1])
-    r = rng.random()
-    if r < 0.45 or not ents:
-        kind = "ordered"
-    elif r < 0.8 and len(ents) >= 2:
-        kind = "unordered_info"
-        i = rng.randrange(len(ents) - 1)
-        ents[i], ents[i + 1] = ents[i + 1], ents[i]
-    else:
-        kind = "dup_info_key"
-        k, v = rng.choice(ents)
-        ents.insert(rng.randrange(len(ents) + 1), (k, v))
+    kinds = ["ordered", "ordered", "unordered_info", "dup_info_key", "unordered_top", "unordered_outside_dict",
+             "unordered_outside_list", "unordered_nested_in_info", "unordered_in_and_out", "empty_key_first"]
+    files = mget(info, "files")
+    if isinstance(files, list) and files and all(is_map(f) for f in files):
+        kinds += ["unordered_file_entry", "unordered_file_entry"]
+    kind = rng.choice(kinds)
+
+    def outside(tp):
+        r = rng.random()
+        if r < 0.4:
+            return mset(tp, b"zextra", UNORDERED_DICT)
+        if r < 0.7:
+            return mset(tp, b"zextra", [1, [UNORDERED_DICT], b"x"])
+        sw = _swap_adjacent(rng, G7.normalize(mset(tp, b"zz", 1)))
+        return sw
+
+    if kind == "unordered_info":
+        sw = _swap_adjacent(rng, info)
+        if sw is None:
+            kind = "ordered"
+        else:
+            top = mset_keep(top, b"info", sw)
+    elif kind == "dup_info_key":
+        ents = list(info[1])
+        if not ents:
+            kind = "ordered"
+        else:
+            k, v = rng.choice(ents)
+            ents.insert(rng.randrange(len(ents) + 1), (k, v))
+            top = mset_keep(top, b"info", ("M", ents))
+    elif kind == "unordered_top":
+        top = _swap_adjacent(rng, G7.normalize(mset(top, b"zz", 1)))
+    elif kind == "unordered_outside_dict":
+        top = G7.normalize(mset(top, b"zextra", 0))
+        top = mset_keep(top, b"zextra", UNORDERED_DICT)
+    elif kind == "unordered_outside_list":
+        top = G7.normalize(mset(top, b"zextra", 0))
+        top = mset_keep(top, b"zextra", [1, [UNORDERED_DICT], b"x"])
+    elif kind == "unordered_nested_in_info":
+        i2 = G7.normalize(mset(info, b"zextra", 0))
+        i2 = mset_keep(i2, b"zextra", rng.choice([UNORDERED_DICT, [[UNORDERED_DICT]], ("M", [(b"k", UNORDERED_DICT)])]))
+        top = mset_keep(top, b"info", i2)
+    elif kind == "unordered_file_entry":
+        fs = list(files)
+        i = rng.randrange(len(fs))
+        sw = _swap_adjacent(rng, fs[i])
+        if sw is None:
+            kind = "ordered"
+        else:
+            fs[i] = sw
+            top = mset_keep(top, b"info", mset_keep(info, b"files", fs))
+    elif kind == "unordered_in_and_out":
+        sw = _swap_adjacent(rng, info)
+        if sw is not None:
+            top = mset_keep(top, b"info", sw)
+        top2 = G7.normalize(mset(top, b"zextra", 0))
+        top = mset_keep(mset_keep(top2, b"info", mget(top, "info")), b"zextra", UNORDERED_DICT)
+    elif kind == "empty_key_first":
+        # a first key of length zero does not count as unordered; a second one does
+        where = rng.choice(["top1", "top2", "info1", "info2"])
+        n = 1 if where.endswith("1") else 2
+        if where.startswith("top"):
+            top = ("M", [(b"", 7)] * n + list(top[1]))
+        else:
+            top = mset_keep(top, b"info", ("M", [(b"", 7)] * n + list(info[1])))
+        kind = "empty_key_" + where
     stats["benc:" + kind] = stats.get("benc:" + kind, 0) + 1
-    # children of info stay normalised; only info's own key order is disturbed
-    body = b"d" + b"".join(G7.ref_encode(k) + G7.ref_encode(v) for k, v in ents) + b"e"
-    out = b"d"
-    for k, v in top[1]:
-        out += G7.ref_encode(k) + (body if k == b"info" else G7.ref_encode(v))
-    return out + b"e"
+    return enc_raw(top)
+
+
+def ref_info_unordered(data):
+    """Independent reference for B cases: is the (last) top-level "info" dictionary unordered
+    anywhere inside (own keys not strictly increasing after the first, or any dictionary nested in
+    it)? None if data is not a bencoded dictionary with an info dictionary."""
+    pos = 0
+
+    def val():
+        nonlocal pos
+        c = data[pos:pos + 1]
+        if c == b"i":
+            e = data.index(b"e", pos)
+            pos = e + 1
+            return ("i", False)
+        if c == b"l":
+            pos += 1
+            fl = False
+            while data[pos:pos + 1] != b"e":
+                _, f = val()
+                fl = fl or f
+            pos += 1
+            return ("l", fl)
+        if c == b"d":
+            pos += 1
+            fl, prev, n, infof = False, b"", 0, None
+            while data[pos:pos + 1] != b"e":
+                k = string()
+                if n > 0 and k <= prev:
+                    fl = True
+                kind, f = val()
+                fl = fl or f
+                if k == b"info":
+                    infof = f if kind == "d" else None
+                prev, n = k, n + 1
+            pos += 1
+            return ("d", fl) if infof is None else ("d", fl, infof)
+        return ("s", False) if string() is not None else None
+
+    def string():
+        nonlocal pos
+        c = data.index(b":", pos)
+        n = int(data[pos:c])
+        pos = c + 1 + n
+        return data[c + 1:c + 1 + n]
+
+    try:
+        if data[:1] != b"d":
+            return None
+        r = val()
+        return r[2] if len(r) == 3 else None
+    except Exception:
+        return None
+
+
+def mset_keep(t, k, v):
+    """replace the value of key k in place (keeps the key order)"""
+    return ("M", [(kk, (v if kk == k else vv)) for kk, vv in t[1]])
 
 
 # ---------------------------------------------------------------- hand list + exhaustive scope
